@@ -75,7 +75,12 @@ func (t *TwoPhaseAction) GetRollbackMethodName() string {
 }
 
 func (t *TwoPhaseAction) Prepare(ctx context.Context, params interface{}) (bool, error) {
-	values := []reflect.Value{reflect.ValueOf(ctx), reflect.ValueOf(params)}
+	paramValue := reflect.ValueOf(params)
+	if !paramValue.IsValid() {
+		// a nil params: reflect cannot call with the zero Value, pass the zero value of the parameter type
+		paramValue = reflect.Zero(t.prepareMethod.Type().In(1))
+	}
+	values := []reflect.Value{reflect.ValueOf(ctx), paramValue}
 	res := t.prepareMethod.Call(values)
 	var (
 		r0   = res[0].Interface()
